@@ -10,11 +10,14 @@ META = {
         "Abstract interpretation of the CBOR validator's source (visit_value, visit_range incl. resolve_range_bound, "
         "seq_match_*, validate) on representative points of the order-type domain, compared with RFC 8610; dispatch "
         "exhaustiveness; no narrowing cast on document integers in cbor.rs (documents are compared in i128); major-type "
-        "table of the DataMajorType arm; the validator's input type cannot represent encoding details. Decides these "
+        "table of the DataMajorType arm; the TaggedData arm (#6[.n](t)) and ast::tag_from_token against Appendix D; "
+        "visit_identifier on every prelude name x scalar/tagged document kind with the classification predicates interpreted from "
+        "their source; visit_control_operator never accepts vacuously and validates the target of a comparison control first; "
+        "the validator's input type cannot represent encoding details. Decides these "
         "necessary conditions for all inputs; the full verdict relation is not decided."),
     "assumptions": ["i128::from(ciborium Integer) is exact", "the abstract interpreter models the Rust subset used; anything else is reported incomplete"],
     "trusted_base": ["syn 2 parser", "lib/absint.py", "oracle tables in lib/valtables.py"],
-    "technique": "static analysis: abstract interpretation of extracted syntax over order types + dispatch exhaustiveness + cast census",
+    "technique": "static analysis: abstract interpretation of extracted syntax over order types and document kinds (comparison, range, occurrence, control-operator, prelude and tag tables against RFC 8610), no-vacuous-accept and target-first path rules, dispatch exhaustiveness, cast census",
 }
 
 CBORF = "src/validator/cbor.rs"
